@@ -2,7 +2,7 @@
    Only theorem statements here; proofs are in Proofs.v.  Byte strings are lists of N with
    every element < 256 (bytes_ok) and a length that fits `unsigned int`. *)
 From OlaBase Require Import Bytes.
-From C05 Require Import Gen Model Proofs Ext Proofs2.
+From C05 Require Import Gen Model Proofs Ext Proofs2 Proofs3.
 Local Open Scope N_scope.
 
 (* Side obligations tying the regenerated constants to the numbers the property and the model's
@@ -272,6 +272,207 @@ Theorem c05_discovery_builders_roundtrip : forall src dst lower upper tn port c,
 Proof. exact new_disc_roundtrip. Qed.
 Print Assumptions c05_discovery_builders_roundtrip.
 
+(* ---- proof-extension round ------------------------------------------------------------------ *)
+
+(* Every constant the model, the proofs or the harness rely on, regenerated from the /repo headers by
+   the compiler on every run (Gen.v), pinned to the values of E1.20 / the property text: the packed
+   header's field offsets and sizes (which tile the 23 header bytes without gaps), command classes,
+   response types, discovery PIDs, special UIDs / sub-devices, the size limits, and the status codes
+   (pairwise distinct, so "the specific mismatch status" identifies the failing check). *)
+Theorem c05_consts :
+  [ (OFF_sub_start_code, SIZE_sub_start_code); (OFF_message_length, SIZE_message_length);
+    (OFF_destination_uid, SIZE_destination_uid); (OFF_source_uid, SIZE_source_uid);
+    (OFF_transaction_number, SIZE_transaction_number); (OFF_port_id, SIZE_port_id);
+    (OFF_message_count, SIZE_message_count); (OFF_sub_device, SIZE_sub_device);
+    (OFF_command_class, SIZE_command_class); (OFF_param_id, SIZE_param_id);
+    (OFF_param_data_length, SIZE_param_data_length) ] =
+  [ (0, 1); (1, 1); (2, 6); (8, 6); (14, 1); (15, 1); (16, 1); (17, 2); (19, 1); (20, 2); (22, 1) ] /\
+  (HEADER_SIZE, CHECKSUM_LENGTH, MAX_PARAM_DATA_LENGTH, MAX_OVERFLOW_SIZE, UID_SIZE) = (23, 2, 231, 4096, 6) /\
+  (DISCOVER_COMMAND, DISCOVER_COMMAND_RESPONSE, GET_COMMAND, GET_COMMAND_RESPONSE, SET_COMMAND,
+   SET_COMMAND_RESPONSE, INVALID_COMMAND) = (0x10, 0x11, 0x20, 0x21, 0x30, 0x31, 0xff) /\
+  (START_CODE, SUB_START_CODE, RDM_ACK, RDM_NACK_REASON, ACK_OVERFLOW) = (0xcc, 1, 0, 2, 3) /\
+  (PID_DISC_UNIQUE_BRANCH, PID_DISC_MUTE, PID_DISC_UN_MUTE, PID_QUEUED_MESSAGE) = (1, 2, 3, 0x20) /\
+  (ALL_DEVICES_UID, ALL_RDM_SUBDEVICES, ROOT_RDM_DEVICE) = (2^48 - 1, 0xffff, 0) /\
+  pairwise_distinct
+    [ RDM_COMPLETED_OK; RDM_INVALID_RESPONSE; RDM_CHECKSUM_INCORRECT; RDM_TRANSACTION_MISMATCH;
+      RDM_SUB_DEVICE_MISMATCH; RDM_SRC_UID_MISMATCH; RDM_DEST_UID_MISMATCH; RDM_WRONG_SUB_START_CODE;
+      RDM_PACKET_TOO_SHORT; RDM_PACKET_LENGTH_MISMATCH; RDM_PARAM_LENGTH_MISMATCH;
+      RDM_INVALID_COMMAND_CLASS; RDM_COMMAND_CLASS_MISMATCH; RDM_INVALID_RESPONSE_TYPE;
+      RDM_DUB_RESPONSE; NOSTATUS ] = true.
+Proof. repeat split; reflexivity. Qed.
+Print Assumptions c05_consts.
+
+(* the acceptance condition of the property text, written out *)
+Theorem c05_accept_cond_def : forall bs,
+  accept_cond bs <->
+  exists ml pdl hi lo,
+    rd bs 0 = Some 1 /\ rd bs 1 = Some ml /\ rd bs 22 = Some pdl /\
+    24 <= ml /\ ml + 1 <= len bs /\ 23 + pdl + 2 <= len bs /\
+    rd bs (ml - 1) = Some hi /\ rd bs ml = Some lo /\
+    hi * 256 + lo = (204 + sum_bytes (take (ml - 1) bs)) mod 65536.
+Proof. intros bs. reflexivity. Qed.
+Print Assumptions c05_accept_cond_def.
+
+(* EXACT acceptance, per entry point (c05_accept gave only the "only if" half): a byte string is
+   accepted and yields c if and only if the acceptance condition holds, c is the command laid out in
+   the header (c05_decode_layout) and the command class (and, for RDMResponse::InflateFromData, the
+   response type and the request, for every request/response pair) is one the entry point handles. *)
+Theorem c05_accept_iff : forall bs c,
+  bytes_ok bs = true -> len bs < 2^32 ->
+  (verify bs = VOk <-> accept_cond bs) /\
+  (accept_cond bs -> exists c', fields bs = Some c') /\
+  (inflate_request bs = Ok c <->
+     accept_cond bs /\ fields bs = Some c /\ is_request_cc (c_cc c) = true) /\
+  (inflate_disc_request bs = Ok c <->
+     accept_cond bs /\ fields bs = Some c /\ c_cc c = DISCOVER_COMMAND) /\
+  (inflate_disc_response bs = Ok c <->
+     accept_cond bs /\ fields bs = Some c /\ c_cc c = DISCOVER_COMMAND_RESPONSE) /\
+  (inflate_response None bs = Ok c <->
+     accept_cond bs /\ fields bs = Some c /\ c_port c <= ACK_OVERFLOW /\ is_response_cc (c_cc c) = true) /\
+  (forall rq, inflate_response (Some rq) bs = Ok c <->
+     inflate_response None bs = Ok c /\ corresponds rq c) /\
+  (inflate bs = Ok c <->
+     accept_cond bs /\ fields bs = Some c /\
+     (is_request_cc (c_cc c) = true \/ c_cc c = DISCOVER_COMMAND_RESPONSE \/
+      ((c_cc c = GET_COMMAND_RESPONSE \/ c_cc c = SET_COMMAND_RESPONSE) /\ c_port c <= ACK_OVERFLOW))).
+Proof.
+  intros bs c Hb Hl. change (2^32) with 4294967296 in Hl.
+  split; [exact (verify_iff bs Hb Hl)|].
+  split; [exact (accept_cond_fields bs Hb Hl)|].
+  split; [exact (request_iff bs Hb Hl c)|].
+  split; [exact (disc_request_iff bs Hb Hl c)|].
+  split; [exact (disc_response_iff bs Hb Hl c)|].
+  split; [exact (response_iff bs Hb Hl c)|].
+  split; [intros rq; exact (match_iff bs Hb Hl rq c)|].
+  exact (inflate_iff bs Hb Hl c).
+Qed.
+Print Assumptions c05_accept_iff.
+
+(* A response is matched to a request, for every request/response pair, exactly when it is acceptable
+   on its own and destination/source UIDs, transaction number, sub-device (with the ALL_RDM_SUBDEVICES
+   and QUEUED_MESSAGE exemptions) and command class (GET with the QUEUED_MESSAGE exemption, SET,
+   DISCOVER) correspond; `corresponds` is written out. *)
+Theorem c05_match_iff : forall rq bs c,
+  bytes_ok bs = true -> len bs < 2^32 ->
+  (inflate_response (Some rq) bs = Ok c <->
+   inflate_response None bs = Ok c /\
+   c_dst c = c_src rq /\ c_src c = c_dst rq /\ c_tn c = c_tn rq /\
+   (c_sub c = c_sub rq \/ c_sub rq = ALL_RDM_SUBDEVICES \/ c_pid rq = PID_QUEUED_MESSAGE) /\
+   (c_cc rq = GET_COMMAND -> c_cc c = GET_COMMAND_RESPONSE \/ c_pid rq = PID_QUEUED_MESSAGE) /\
+   (c_cc rq = SET_COMMAND -> c_cc c = SET_COMMAND_RESPONSE) /\
+   (c_cc rq = DISCOVER_COMMAND -> c_cc c = DISCOVER_COMMAND_RESPONSE)).
+Proof.
+  intros rq bs c Hb Hl. change (2^32) with 4294967296 in Hl. exact (match_iff bs Hb Hl rq c).
+Qed.
+Print Assumptions c05_match_iff.
+
+(* The decoded command, whichever entry point accepted the bytes, is exactly the big-endian content of
+   the header fields at the compiler's offsets/sizes plus the parameter-length bytes that follow the
+   header. *)
+Theorem c05_decode_layout : forall bs rq c,
+  inflate bs = Ok c \/ inflate_request bs = Ok c \/ inflate_disc_request bs = Ok c \/
+  inflate_disc_response bs = Ok c \/ inflate_response rq bs = Ok c ->
+  c_dst c = be_val (take SIZE_destination_uid (drop OFF_destination_uid bs)) /\
+  c_src c = be_val (take SIZE_source_uid (drop OFF_source_uid bs)) /\
+  rd bs OFF_transaction_number = Some (c_tn c) /\
+  rd bs OFF_port_id = Some (c_port c) /\
+  rd bs OFF_message_count = Some (c_mc c) /\
+  c_sub c = be_val (take SIZE_sub_device (drop OFF_sub_device bs)) /\
+  rd bs OFF_command_class = Some (c_cc c) /\
+  c_pid c = be_val (take SIZE_param_id (drop OFF_param_id bs)) /\
+  exists pdl, rd bs OFF_param_data_length = Some pdl /\ c_data c = take pdl (drop HEADER_SIZE bs).
+Proof. exact decode_layout. Qed.
+Print Assumptions c05_decode_layout.
+
+(* Canonical frames re-serialise to the same bytes whichever entry point accepted them (c05_canonical
+   covered RDMCommand::Inflate only), including RDMReply::FromFrame (frame = start code + message). *)
+Theorem c05_canonical_all_entry_points : forall bs rq c,
+  bytes_ok bs = true -> len bs < 2^32 ->
+  ((inflate bs = Ok c \/ inflate_request bs = Ok c \/ inflate_disc_request bs = Ok c \/
+    inflate_disc_response bs = Ok c \/ inflate_response rq bs = Ok c) ->
+   (forall ml pdl, rd bs 1 = Some ml -> rd bs 22 = Some pdl -> ml = 24 + pdl /\ len bs = ml + 1) ->
+   pack c = Some bs) /\
+  (from_frame rq bs = Ok c ->
+   (forall ml pdl, rd bs 2 = Some ml -> rd bs 23 = Some pdl -> ml = 24 + pdl /\ len bs = ml + 2) ->
+   exists s body, bs = s :: body /\ pack c = Some body).
+Proof.
+  intros bs rq c Hb Hl. change (2^32) with 4294967296 in Hl. split.
+  - exact (canonical_any bs Hb Hl rq c).
+  - exact (canonical_frame bs rq c Hb Hl).
+Qed.
+Print Assumptions c05_canonical_all_entry_points.
+
+(* RDMRequest::OverrideOptions: a sub-start code override other than SUB_START_CODE makes every decoder
+   refuse the serialised request with RDM_WRONG_SUB_START_CODE (whatever the other overrides); a
+   checksum override different from the additive checksum gives RDM_CHECKSUM_INCORRECT; overrides that
+   restate the default values serialise to the same bytes as no override.
+   (Message-length overrides other than the default value are not characterised.) *)
+Theorem c05_override_options : forall o c,
+  (forall bs rq, o_ssc o <> SUB_START_CODE -> pack_o o c = Some bs ->
+     inflate_request bs = Reject RDM_WRONG_SUB_START_CODE /\
+     inflate_disc_request bs = Reject RDM_WRONG_SUB_START_CODE /\
+     inflate_disc_response bs = Reject RDM_WRONG_SUB_START_CODE /\
+     inflate_response rq bs = Reject RDM_WRONG_SUB_START_CODE) /\
+  (forall bs rq k, wf_cmd c = true -> o_ssc o = SUB_START_CODE -> o_ml o = None -> o_ck o = Some k ->
+     k < 65536 -> k <> u16 (START_CODE + sum_bytes (header default_opts c ++ c_data c)) ->
+     pack_o o c = Some bs ->
+     inflate_request bs = Reject RDM_CHECKSUM_INCORRECT /\
+     inflate_disc_request bs = Reject RDM_CHECKSUM_INCORRECT /\
+     inflate_disc_response bs = Reject RDM_CHECKSUM_INCORRECT /\
+     inflate_response rq bs = Reject RDM_CHECKSUM_INCORRECT) /\
+  (o_ssc o = SUB_START_CODE ->
+   (o_ml o = None \/ o_ml o = Some (u8 (HEADER_SIZE + len (c_data c) + 1))) ->
+   (o_ck o = None \/ o_ck o = Some (u16 (START_CODE + sum_bytes (header default_opts c ++ c_data c)))) ->
+   pack_o o c = pack c).
+Proof.
+  intros o c. split; [|split].
+  - intros bs rq Hs Hp. exact (verify_reject_all bs _ rq (pack_o_ssc o c bs Hs Hp)).
+  - intros bs rq k Hwf Hs Hm Hk Hk16 Hne Hp.
+    exact (verify_reject_all bs _ rq (pack_o_bad_checksum o c k bs Hwf Hs Hm Hk Hk16 Hne Hp)).
+  - exact (pack_o_default_equiv o c).
+Qed.
+Print Assumptions c05_override_options.
+
+(* RDMResponse::CombineResponses: only two GET or two SET responses from the same source combine,
+   into an ACK carrying both parameter blocks in order with the second part's message count; more
+   than MAX_OVERFLOW_SIZE bytes are refused; when the combined data fits one frame the result is a
+   constructible response and round-trips. *)
+Theorem c05_combine_responses : forall r1 r2,
+  (forall r, combine_responses r1 r2 = Some r ->
+     c_src r1 = c_src r2 /\
+     ((c_cc r1 = GET_COMMAND_RESPONSE /\ c_cc r2 = GET_COMMAND_RESPONSE) \/
+      (c_cc r1 = SET_COMMAND_RESPONSE /\ c_cc r2 = SET_COMMAND_RESPONSE)) /\
+     c_data r = c_data r1 ++ c_data r2 /\ c_cc r = c_cc r1 /\ c_port r = RDM_ACK /\ c_mc r = c_mc r2 /\
+     c_src r = c_src r1 /\ c_dst r = c_dst r1 /\ c_tn r = c_tn r1 /\ c_sub r = c_sub r1 /\ c_pid r = c_pid r1) /\
+  (MAX_OVERFLOW_SIZE < len (c_data r1) + len (c_data r2) -> len (c_data r1) + len (c_data r2) < 2^32 ->
+     combine_responses r1 r2 = None) /\
+  (forall r, wf_cmd r1 = true -> wf_cmd r2 = true ->
+     len (c_data r1) + len (c_data r2) <= MAX_PARAM_DATA_LENGTH ->
+     combine_responses r1 r2 = Some r ->
+     exists bs, pack r = Some bs /\ inflate_response None bs = Ok r /\ inflate bs = Ok r).
+Proof.
+  intros r1 r2. split; [|split].
+  - intros r. exact (combine_spec r1 r2 r).
+  - intros H Hl. change (2^32) with 4294967296 in Hl. exact (combine_too_long r1 r2 H Hl).
+  - intros r. exact (combine_roundtrip r1 r2 r).
+Qed.
+Print Assumptions c05_combine_responses.
+
+(* RDMFrame / RDMReply bookkeeping: the constructors zero the four timing words; RDMReply::FromFrame
+   and DUBReply store exactly the frame they were given (data and timing untouched by the codec), the
+   decode result depends on the frame data only; RDMFrame::operator== is reflexive. *)
+Theorem c05_reply_keeps_frame : forall rq fr prepend raw,
+  snd (reply_from_frame rq fr) = [fr] /\ fst (reply_from_frame rq fr) = from_frame rq (f_data fr) /\
+  snd (dub_reply fr) = [fr] /\ fst (dub_reply fr) = RDM_DUB_RESPONSE /\
+  f_data (new_frame prepend raw) = mk_frame prepend raw /\ f_timing (new_frame prepend raw) = (0, 0, 0, 0) /\
+  frame_eq fr fr = true.
+Proof.
+  intros rq fr prepend raw. destruct (reply_keeps_frame rq fr) as (A & B & C & D).
+  destruct (new_frame_spec prepend raw) as [E F].
+  repeat split; try assumption. exact (frame_eq_refl fr).
+Qed.
+Print Assumptions c05_reply_keeps_frame.
+
 (* ---- non-vacuity: concrete instances meeting the hypotheses *)
 Definition ex_cmd : cmd :=
   {| c_dst := 0x7a7000000001; c_src := 0x00010000002a; c_tn := 7; c_port := 1; c_mc := 0;
@@ -316,4 +517,28 @@ Proof. vm_compute. repeat split; reflexivity. Qed.
 Example ex_built :
   response_from_data {| c_dst := 0x7a7000000001; c_src := 0x00010000002a; c_tn := 9; c_port := 1; c_mc := 0;
      c_sub := 0; c_cc := 32; c_pid := 0x00f0; c_data := [] |} [1] RDM_ACK 0 = Some ex_resp.
+Proof. reflexivity. Qed.
+
+(* proof-extension round examples *)
+Example ex_accept_cond :
+  match pack ex_resp with Some bs => verify bs = VOk /\ fields bs = Some ex_resp | None => False end.
+Proof. vm_compute. split; reflexivity. Qed.
+Example ex_match_iff :
+  match pack ex_resp with
+  | Some bs => inflate_response (Some {| c_dst := 0x7a7000000001; c_src := 0x00010000002a; c_tn := 9; c_port := 1;
+                 c_mc := 0; c_sub := 0; c_cc := 32; c_pid := 0x00f0; c_data := [] |}) bs = Ok ex_resp
+  | None => False end.
+Proof. vm_compute. reflexivity. Qed.
+Example ex_override_ssc :
+  match pack_o {| o_ssc := 0xcc; o_ml := None; o_ck := None |} ex_cmd with
+  | Some bs => inflate bs = Reject RDM_WRONG_SUB_START_CODE | None => False end.
+Proof. vm_compute. reflexivity. Qed.
+Example ex_override_ck :
+  match pack_o {| o_ssc := 1; o_ml := None; o_ck := Some 0 |} ex_cmd with
+  | Some bs => inflate bs = Reject RDM_CHECKSUM_INCORRECT | None => False end.
+Proof. vm_compute. reflexivity. Qed.
+Example ex_combine :
+  combine_responses ex_resp ex_resp =
+  Some {| c_dst := 0x00010000002a; c_src := 0x7a7000000001; c_tn := 9; c_port := 0; c_mc := 0;
+          c_sub := 0; c_cc := 33; c_pid := 0x00f0; c_data := [1; 1] |}.
 Proof. reflexivity. Qed.
